@@ -25,10 +25,10 @@ struct Common {
     o: Outcome,
 }
 
-fn common(tape: &[u8], id: &str, cfg: &ProgCfg) -> Result<(Common, Vec<u8>), Outcome> {
+fn common(tape: &[u8], id: &str, cfg: &ProgCfg, cx: &Cx) -> Result<(Common, Vec<u8>), Outcome> {
     let (ta, tb) = tape.split_at(tape.len() / 4);
     let mut tp = Tape::new(tb);
-    let prog = Prog::decode(&mut tp, cfg);
+    let prog = Prog::decode(&mut tp, &cfg.clone().scaled(cx.thorough));
     let mut o = Outcome::default();
     o.digest = fnv(&prog.digest_bytes());
     let mut case = match rx::setup(prog.clone()) {
@@ -59,7 +59,7 @@ fn has_semantic_empty(prog: &Prog, dfas: &[Dfa], terms: &[aws_smt_strings::regul
 // ---------------------------------------------------------------------------------------------
 
 pub fn run_c05(tape: &[u8], cx: &Cx) -> Outcome {
-    let (Common { case, dfas, mut o }, ta) = match common(tape, "C05", &cfg()) {
+    let (Common { case, dfas, mut o }, ta) = match common(tape, "C05", &cfg(), cx) {
         Ok(x) => x,
         Err(o) => return o,
     };
@@ -162,7 +162,7 @@ pub fn run_c05(tape: &[u8], cx: &Cx) -> Outcome {
 // ---------------------------------------------------------------------------------------------
 
 pub fn run_c18(tape: &[u8], cx: &Cx) -> Outcome {
-    let (Common { case, dfas, mut o }, ta) = match common(tape, "C18", &cfg()) {
+    let (Common { case, dfas, mut o }, ta) = match common(tape, "C18", &cfg(), cx) {
         Ok(x) => x,
         Err(o) => return o,
     };
@@ -272,7 +272,7 @@ pub fn run_c18(tape: &[u8], cx: &Cx) -> Outcome {
 
 pub fn run_c19(tape: &[u8], cx: &Cx) -> Outcome {
     let c = ProgCfg { max_ins: 10, ..ProgCfg::default() };
-    let (Common { case, dfas: _, mut o }, ta) = match common(tape, "C19", &c) {
+    let (Common { case, dfas: _, mut o }, ta) = match common(tape, "C19", &c, cx) {
         Ok(x) => x,
         Err(o) => return o,
     };
